@@ -223,7 +223,7 @@ fn bar_op(rng: &mut Rng, b: u64, w: usize, special: bool, fl: Flavor) -> Op {
         12 => Op::new("force_draw").n(b),
         _ => {
             if rng.chance(1, 2) {
-                Op::new("iter_exhaust").n(b).n(rng.below(15)).n(rng.below(5))
+                Op::new("iter_exhaust").n(b).n(rng.below(15)).n(rng.below(7))
             } else {
                 Op::new("iter_partial").n(b).n(rng.below(15)).n(rng.below(8))
             }
